@@ -47,6 +47,14 @@ func static() {
 		viol := func(kind, desc string) {
 			w.Violation(kind+":"+e.Name, e.Name+": "+desc, map[string]string{"entry": e.Name})
 		}
+		// every alias the entry itself declares must be registered and resolve to it
+		for _, n := range append([]string{ti.Name}, ti.Aliases...) {
+			w.R.Evaluations++
+			got := terminfo.VerifGet(n)
+			if got == nil || got.Name != ti.Name {
+				viol("alias-unregistered", fmt.Sprintf("the entry declares the name %q but the database does not map it to this entry", n))
+			}
+		}
 		for _, n := range e.Names {
 			w.R.Evaluations++
 			got, err := terminfo.LookupTerminfo(n)
